@@ -1,5 +1,5 @@
 (* C16 property theorems: statements + `exact lemma` only. *)
-From CJ Require Import Common.Base C16.Model C16.Concrete C16.ProofsRead C16.ProofsHb C16.ProofsHb2 C16.ProofsFc C16.ModelMw C16.ProofsMw C16.ProofsMr C16.ProofsReg C16.ProofsMat.
+From CJ Require Import Common.Base C16.Model C16.Concrete C16.ProofsRead C16.ProofsHb C16.ProofsHb2 C16.ProofsFc C16.ModelMw C16.ProofsMw C16.ProofsMr C16.ProofsReg C16.ProofsMat C16.ModelMax C16.ProofsMax.
 
 (* ------------------------------------------------------------------ *)
 (* (i) SCTPConn.Read                                                   *)
@@ -421,3 +421,41 @@ Theorem C16_concrete_key_valid :
     (1 <= cm_d c2 < p256_order /\ cm_serial c2 < serial_max).
 Proof. exact concrete_key_valid. Qed.
 Print Assumptions C16_concrete_key_valid.
+
+(* ------------------------------------------------------------------ *)
+(* (viii) receive-buffer size against the writer's maximum message size *)
+(* ------------------------------------------------------------------ *)
+
+(* a reader whose buffers cover the largest message the writer's association accepts gets, for
+   every sequence of writes (accepted or refused by Write) and every sequence of read sizes,
+   exactly what Write reported as written, in order, and no error before the end of the stream *)
+Theorem C16_lossless_when_rbuf_covers_wmax :
+  forall wmax rbuf eos ms sizes, (wmax <= rbuf)%nat -> pair_lossless wmax rbuf eos ms sizes.
+Proof. exact lossless_when_rbuf_covers_wmax. Qed.
+Print Assumptions C16_lossless_when_rbuf_covers_wmax.
+
+Theorem C16_lossless_bytes_when_rbuf_covers_wmax :
+  forall wmax rbuf eos ms sizes, (wmax <= rbuf)%nat ->
+    exists k, concat (map fst (fst (fst (pair_reads wmax rbuf eos ms sizes)))) = firstn k (wr_reported wmax ms).
+Proof. exact lossless_bytes_when_rbuf_covers_wmax. Qed.
+Print Assumptions C16_lossless_bytes_when_rbuf_covers_wmax.
+
+(* ... and only then *)
+Theorem C16_lossless_iff_rbuf_covers_wmax :
+  forall wmax rbuf eos, (forall ms sizes, pair_lossless wmax rbuf eos ms sizes) <-> (wmax <= rbuf)%nat.
+Proof. exact lossless_iff_rbuf_covers_wmax. Qed.
+Print Assumptions C16_lossless_iff_rbuf_covers_wmax.
+
+Theorem C16_lossy_witness_when_rbuf_below_wmax :
+  forall wmax rbuf eos, (rbuf < wmax)%nat ->
+    pair_reads wmax rbuf eos (short_witness wmax) [rbuf] = ([([], Some E_SHORT)], rinit, []) /\
+    ~ pair_lossless wmax rbuf eos (short_witness wmax) [rbuf].
+Proof. intros. split; [apply short_witness_run | apply lossy_when_rbuf_below_wmax]; assumption. Qed.
+Print Assumptions C16_lossy_witness_when_rbuf_below_wmax.
+
+(* messages no longer than the buffer are unaffected by a larger writer limit *)
+Theorem C16_lossless_below_rbuf :
+  forall wmax rbuf eos ms sizes,
+    Forall (fun m => (length m <= rbuf)%nat) ms -> pair_lossless wmax rbuf eos ms sizes.
+Proof. exact lossless_below_rbuf. Qed.
+Print Assumptions C16_lossless_below_rbuf.
